@@ -1770,6 +1770,165 @@ def run_minicase(T, seed, which):
     return co
 
 
+# =============================================================================== family "subset comparison"
+# cdfdiff / ncmpidiff -v name[,name] on pairs (A, B) where B holds additional fixed and record variables before and
+# after the compared ones and uses other alignments: begins AND record sizes differ between the two files.  Expectation
+# from the oracle's decoded values of the selected variables only.
+SUB_EXTRA = [('eb', 3, [2], False, 1), ('y', 6, [0, 2], True, 2), ('z', 1, [0, 1], True, 4), ('ea', 4, [1], False, 8)]
+
+
+def sub_plan(rng, tier):
+    must = [(f, 4, 3, 3, 2, False, p) for f in (1, 2, 5) for p in (False, True)] + \
+           [(1, 3, 3, 2, 6, True, True), (2, 6, 1, 5, 15, True, False), (5, 11, 2, 4, 13, True, True), (5, 8, 5, 2, 4, False, False)]
+    n = 4 if tier == 'quick' else 300
+    out = list(must)
+    while len(out) < len(must) + n:
+        fmt = rng.choice([1, 2, 5])
+        t = rng.choice([1, 2, 3, 4, 5, 6] if fmt < 5 else list(range(1, 12)))
+        out.append((fmt, t, rng.range(1, 5), rng.range(2, 5), rng.range(1, 15), rng.chance(2, 3), rng.chance(1, 2)))
+    return out
+
+
+def sub_scripts(rng, spec):
+    """-> (script A, script B): x(t,n) of the given type [and fixed f(m)] with the same values in both; B has the extra
+    variables selected by mask around them and other alignment; plant: one element of x (last record in half of the
+    cases) gets another value in B"""
+    fmt, xt, cnt, nr, mask, hasf, plant = spec
+    seed = 1 + rng.below(400)
+    where = rng.choice(['last', 'last', 'first', 'any'])
+
+    def script(isB):
+        L = ['nprocs 1']
+        if isB:
+            L.append('hint nc_header_align_size %d' % rng.choice([4, 64, 1024]))
+            if rng.chance(1, 2):
+                L.append('hint nc_record_align_size %d' % rng.choice([8, 64, 512]))
+        L += ['* create 0 %d 1' % fmt, '* def_dim 0 %s -1' % hx('t'), '* def_dim 0 %s %d' % (hx('n'), cnt), '* def_dim 0 %s 2' % hx('m')]
+        vs = []
+        ex = [e for e in SUB_EXTRA if isB and (mask & e[4])]
+        vs += [e[:4] for e in ex if e[4] in (1, 2)]
+        vs.append(('x', xt, [0, 1], True))
+        if hasf:
+            vs.append(('f', 3, [2], False))
+        vs += [e[:4] for e in ex if e[4] in (4, 8)]
+        for n_, t, ids, _ in vs:
+            L.append('* def_var 0 %s %d %d %s' % (hx(n_), t, len(ids), ' '.join(map(str, ids))))
+        L.append('* _enddef 0 16 8 8 64' if (isB and rng.chance(1, 2)) else '* enddef 0')
+        L.append('* begin_indep 0')
+        dl = [nr, cnt, 2]
+        for vid, (n_, t, ids, _) in enumerate(vs):
+            k = 3 if t == 5 else t
+            sd = seed + {'x': 0, 'f': 1}.get(n_, 10 + vid)
+            L.append('0 put 0 i %d vara t%d c %d %s %s pat %d' % (vid, k, len(ids), ' '.join('0' for _ in ids),
+                                                                   ' '.join(str(dl[i]) for i in ids), sd))
+            if n_ == 'x' and isB and plant:
+                r = nr - 1 if where == 'last' else (0 if where == 'first' else rng.below(nr))
+                L.append('0 put 0 i %d var1 t%d c 2 %d %d pat %d' % (vid, k, r, rng.below(cnt), seed + 77))
+        L += ['* end_indep 0', '* close 0']
+        return '\n'.join(L) + '\n'
+    return script(False), script(True)
+
+
+def sel_expect(ca, cb, names):
+    """verdict for `-v names` from the two oracle decodes: (same|differ, {name: first differing multi-index | None})"""
+    verdict, first = 'same', {}
+    for n in names:
+        va = next((v for v in ca.vars if v.name == n.encode()), None)
+        vb = next((v for v in cb.vars if v.name == n.encode()), None)
+        if va is None or vb is None:
+            return 'differ', first
+        sa = [ca.numrecs if x == 0 else x for x in ca.shape(va)]
+        sb = [cb.numrecs if x == 0 else x for x in cb.shape(vb)]
+        if va.type != vb.type or sa != sb:
+            verdict = 'differ'
+            continue
+        k = next((i for i, (x, y) in enumerate(zip(va.data, vb.data)) if x != y), None)
+        if k is not None:
+            verdict = 'differ'
+            idx = []
+            for d_ in reversed(sa):
+                idx.append(k % d_); k //= d_
+            first[n] = list(reversed(idx))
+    return verdict, first
+
+
+def header_equal(ca, cb):
+    def hv(c):
+        return (c.dims, [(a.name, a.type, a.nelems, a.data) for a in c.gatts],
+                [(v.name, v.type, v.dimids, [(a.name, a.type, a.nelems, a.data) for a in v.atts]) for v in c.vars])
+    return hv(ca) == hv(cb)
+
+
+def run_subcase(T, seed, idx, spec):
+    import re
+    co = CaseOut()
+    rng = C.SplitMix64(seed * 1000003 + idx * 32452843 + 23)
+    ta, tb = sub_scripts(rng, spec)
+    d = os.path.join(T.d, 'sub%d' % idx)
+    os.makedirs(d, exist_ok=True)
+    sha = 'sub:' + ':'.join(str(int(x)) for x in spec)
+    base = dict(case='sub%d' % idx, case_seed=seed, family='subset-comparison', script=ta, script_b=tb, script_sha=sha,
+                sub=dict(idx=idx, spec=[int(x) for x in spec]), features=[])
+    files = []
+    for tag, text in (('a', ta), ('b', tb)):
+        r = S.run_script(text, T.pnc_impl, None, d, tag, keep=True, want_model=False, timeout=120)
+        p = os.path.join(r.dir, 'f0.nc')
+        bad = [(k, t) for k, t in sorted(r.impl.items()) if len(t) >= 2 and t[0] in ('put', 'def_var', 'def_dim', 'enddef', '_enddef', 'close') and t[1] != '0']
+        if r.rc != 0 or not os.path.exists(p) or bad:
+            co.viol.append(('the subset-comparison session %s failed (rc %s, %r)' % (tag, r.rc, bad[:2]), dict(base, output=r.stdout[-800:]), None))
+            return co
+        files.append(p)
+    A, B = files
+    ca, cb = odump(T, A), odump(T, B)
+    fmt, xt, cnt, nr, mask, hasf, plant = spec
+    if ca.info.get('decode') != 1 or cb.info.get('decode') != 1 or ca.numrecs != nr or cb.numrecs != nr:
+        co.viol.append(('subset-comparison files are not what the scripts defined', dict(base), None))
+        return co
+    co.stat('family:subset-comparison')
+    co.stat('subset:recsize-%s' % ('differs' if ca.info['recsize'] != cb.info['recsize'] else 'equal'))
+    sels = [['x']] + ([['f'], ['x', 'f']] if hasf else [])
+    runs = [(['-v', ','.join(sl)], sl) for sl in sels] + [(['-h'], None)]
+    for opts, sl in runs:
+        for x, y, cx, cy, od in ((A, B, ca, cb, ''), (B, A, cb, ca, ':swapped')):
+            if sl is None:
+                want, first = ('same' if header_equal(cx, cy) else 'differ'), {}
+                if od:
+                    continue
+            else:
+                want, first = sel_expect(cx, cy, sl)
+            for tool, n in (('cdfdiff', 1), ('ncmpidiff', rng.range(1, 2))):
+                if tool == 'ncmpidiff' and xt == 1 and sl and 'x' in sl and want == 'differ':
+                    continue            # NC_BYTE is never compared by ncmpidiff: known finding, other keys
+                rc, out = mpi(n, getattr(T, tool), opts + [x, y], timeout=120)
+                got = diff_verdict(rc, out)
+                if got == 'error':
+                    co.stat('retry:%s' % tool)
+                    rc, out = mpi(n, getattr(T, tool), opts + [x, y], timeout=240)
+                    got = diff_verdict(rc, out)
+                co.counts.append(('%s %s np=%d subset%s | %s -> %s' % (tool, ' '.join(opts), n, od, sha, got), True))
+                co.stat('subset:%s:%s:%s' % (tool, opts[0], want))
+                prob = None
+                if got != want:
+                    prob = ('%s-expected' % want, 'reports "%s", expected "%s"' % (got, want))
+                elif want == 'differ' and n == 1 and first:
+                    for nm_, fi in first.items():
+                        m = re.search(r'variable "%s" of type "[^"]+" at element \[([0-9, ]+)\]' % nm_, out)
+                        g = [int(z) for z in m.group(1).split(',')] if m else None
+                        if g != fi:
+                            prob = ('first-element', 'reports the first difference of %s at %r, the decoded files differ first at %r' % (nm_, g, fi))
+                if prob:
+                    cmdline = '%s %s <%s> <%s>' % (tool, ' '.join(opts), 'A' if not od else 'B', 'B' if not od else 'A')
+                    co.viol.append(('%s: %s (B = A plus extra variables %s; selected variables: type %s, %d records, planted difference %s)' %
+                                    (cmdline, prob[1], [e[0] for e in SUB_EXTRA if mask & e[4]], TYPE_NAME[xt], nr, plant),
+                                    dict(base, command=cmdline, tool=tool, options=opts, order=od or 'as given', np=n, rc=rc, output=out[-1500:],
+                                         expected=want, first_difference=first, recsize=[ca.info['recsize'], cb.info['recsize']],
+                                         file_a=open(x, 'rb').read().hex()[:60000], file_b=open(y, 'rb').read().hex()[:60000]),
+                                    '%s:subset:%s:%s%s' % (tool, opts[0].lstrip('-'), prob[0], od)))
+    if not os.environ.get('C20_KEEP'):
+        shutil.rmtree(d, ignore_errors=True)
+    return co
+
+
 # =============================================================================== driver
 def setup_tools(lib, oracle):
     """copy the utilities and the script driver out of the (evictable) library cache"""
@@ -1817,6 +1976,8 @@ def run(ctx):
         futs = [ex.submit(run_bigcase, T, case_seed, j, *pl) for j, pl in enumerate(plan)]
         rplan = rec_plan(ctx.rng.fork('record-offsets'), ctx.tier) if os.environ.get('C20_REC', '1') != '0' else []
         futs += [ex.submit(run_reccase, T, case_seed, j, sp) for j, sp in enumerate(rplan)]
+        splan = sub_plan(ctx.rng.fork('subset'), ctx.tier) if os.environ.get('C20_SUB', '1') != '0' else []
+        futs += [ex.submit(run_subcase, T, case_seed, j, sp) for j, sp in enumerate(splan)]
         futs += [ex.submit(run_minicase, T, case_seed, w) for w in ['gatt-none', 3, 4, 5, 6, 7, 8, 9, 10, 11]]
         futs += [ex.submit(run_case, T, case_seed, i, ctx.tier) for i in range(ncases)]
         done_pco = cf.Future()
@@ -1858,11 +2019,16 @@ def run(ctx):
                        'Family record-offsets: library-written files over the grid {0,1,2} fixed x {1,2} record variables x element '
                        'size 1/2/4/8 x per-record count 1..5 x numrecs 0..4 x CDF-1/2/5 (thorough: all 1800; quick: 36 incl. one '
                        'record + one fixed variable, 2-byte type, count 3, 3 records); ncoffsets -r, -s -r, -g -r, -sgr, -s -g, '
-                       '-r -s -v, -r -v, -x: every printed start/end/size/gap against begin + k*recsize of the oracle decode.')
+                       '-r -s -v, -r -v, -x: every printed start/end/size/gap against begin + k*recsize of the oracle decode. '
+                       'Family subset-comparison: library-written pairs (A, B), B = A plus extra fixed/record variables before and after '
+                       'the compared ones and other alignment (begins and record sizes differ), 2-5 records, all types, CDF-1/2/5, a '
+                       'difference planted in one element (last record in half of the cases); cdfdiff and ncmpidiff -v x | f | x,f in both '
+                       'argument orders and -h: SAME/DIFF and the first differing element from the oracle decode of the selected variables.')
     ctx.cov['distribution'] = dict(sorted(stats.items()))
     ctx.cov['cases'] = ncases
     ctx.cov['large_header_files'] = len(plan)
     ctx.cov['record_offsets_files'] = len(rplan)
+    ctx.cov['subset_comparison_pairs'] = len(splan)
 
 
 def replay(ctx, d):
@@ -1876,7 +2042,7 @@ def replay(ctx, d):
         p = os.path.join(w, name)
         open(p, 'wb').write(bytes.fromhex(hx_))
         return p
-    if d.get('mini') is None and not d.get('big') and not d.get('rec') and d.get('tool') in ('cdfdiff', 'ncmpidiff') and len(d.get('file_a', '')) < 60000 and len(d.get('file_b', '')) < 60000 and d.get('file_a'):
+    if d.get('mini') is None and not d.get('sub') and not d.get('big') and not d.get('rec') and d.get('tool') in ('cdfdiff', 'ncmpidiff') and len(d.get('file_a', '')) < 60000 and len(d.get('file_b', '')) < 60000 and d.get('file_a'):
         a, b = put('a.nc', d['file_a']), put('b.nc', d['file_b'])
         e = oeq(T, a, b)
         rc, out = mpi(int(d.get('np', 1)), getattr(T, d['tool']), list(d.get('options', [])) + [a, b])
@@ -1900,7 +2066,9 @@ def replay(ctx, d):
         print(vout[-1500:])
         print('REPLAY: %s' % ('disagreement reproduced' if got != want else 'tool and oracle agree now'))
         return 1 if got != want else 0
-    if d.get('mini') is not None:
+    if d.get('sub'):
+        co = run_subcase(T, int(d.get('case_seed', ctx.seed)), d['sub']['idx'], tuple(d['sub']['spec']))
+    elif d.get('mini') is not None:
         co = run_minicase(T, int(d.get('case_seed', ctx.seed)), d['mini'])
     elif d.get('rec'):
         co = run_reccase(T, int(d.get('case_seed', ctx.seed)), d['rec']['idx'], tuple(d['rec']['spec']))
